@@ -355,6 +355,12 @@ func (ai *MinimaxAI) AnalyzeAll(ctx context.Context, p *tak.Position) ([][]tak.M
 		// invert and negate that to find the α-β window for
 		// the child search: (-v-1, -v+1)
 		ms, cv := ai.pvSearch(child, 1, st.Depth-1, pv[1:], -v-1, -v+1)
+		if atomic.LoadInt32(ai.cancel) != 0 {
+			// an abandoned search returns no value; the lines
+			// found so far are all we can report
+			st.Canceled = true
+			break
+		}
 		cv = -cv
 		if ai.Cfg.Debug > 2 {
 			log.Printf("[all-search] m=%s v=%d pv=%s",
